@@ -38,12 +38,12 @@ Definition DQUOTE : N := 34%N.
 Definition SQUOTE : N := 39%N.
 Definition BACKTICK : N := 96%N.
 
-(* strings.TrimRight(s, " ") *)
+(* strings.TrimRight(s, " \r") *)
 Fixpoint trim_right_spaces (s : str) : str :=
   match s with
   | [] => []
   | c :: s' => match trim_right_spaces s' with
-               | [] => if N.eqb c SPACE then [] else [c]
+               | [] => if N.eqb c SPACE || N.eqb c CR then [] else [c]
                | t => c :: t
                end
   end.
